@@ -165,8 +165,11 @@ impl Directive {
                         bail!("Too many arguments for {}", self);
                     }
                     if let Operand::E(expr) = &args[0] {
-                        if let Expr::Const(n) = expr {
-                            context.push_to_last((point, Item::ReserveData(*n)));
+                        if let Ok(n) = expr.run(&context.common_context) {
+                            if n < 0 {
+                                bail!("Negative size for .byte, {}", point);
+                            }
+                            context.push_to_last((point, Item::ReserveData(n)));
                         }
                     }
                 } else {
@@ -184,12 +187,18 @@ impl Directive {
             }
             Directive::Org => {
                 if let DirectiveOps::OpList(values) = opts {
-                    if let Operand::E(Expr::Const(value)) = &values[0] {
+                    if let Some(Ok(value)) = values.get(0).map(|value| match value {
+                        Operand::E(expr) => expr.run(&context.common_context).map_err(|_| ()),
+                        Operand::S(_) => Err(()),
+                    }) {
+                        if value < 0 || value > u32::MAX as i64 {
+                            bail!("Address out of range for .org, {}", point);
+                        }
                         if !context.last_segment().unwrap().borrow().is_empty() {
                             let current_type = context.last_segment().unwrap().borrow().t;
                             context.add_segment(Segment::new(current_type));
                         }
-                        context.last_segment().unwrap().borrow_mut().address = *value as u32;
+                        context.last_segment().unwrap().borrow_mut().address = value as u32;
                     }
                 } else {
                     bail!("wrong format for .org, expected: {} in {}", opts, point,);
